@@ -940,8 +940,14 @@ impl<'a> Compiler<'a> {
                 self.push_instruction(Instruction::PopTable);
             }
             CardBody::DynamicCall(jump) => {
-                self.compile_subexpr(jump.args.0.as_slice())?;
-                self.current_index.push_subindex(jump.args.0.len() as u32);
+                // children are numbered like `Card::get_child` does: the function is child 0,
+                // the arguments follow
+                for (i, card) in jump.args.0.iter().enumerate() {
+                    self.current_index.push_subindex(i as u32 + 1);
+                    self.process_card(card)?;
+                    self.current_index.pop_subindex();
+                }
+                self.current_index.push_subindex(0);
                 self.process_card(&jump.function)?;
                 self.current_index.pop_subindex();
                 self.push_instruction(Instruction::CallFunction);
